@@ -1,0 +1,47 @@
+//go:build verif
+
+package unknownfields
+
+// Contracts for the decoding half (bytes -> unknown-field tree). Comment-only file.
+//
+//   tagsOK(f)  element / key / value type tags are set only where they are meaningful
+//   a decoded node carries the id and type it was asked to decode
+
+//@ pred tagsOK(f) = (f.Type != 13 ==> f.KeyType == 0) && (f.Type != 13 && f.Type != 14 && f.Type != 15 ==> f.ValType == 0)
+
+//@ pred kids(f) = astype(f.Value, []UnknownField)
+//@ pred kidOK(c, t) = c.Type == t && tagsOK(c)
+
+//@ func readUnknownField
+//@   arith int
+//@   props C03, C13
+//@   requires !isnil(f) && f.KeyType == 0 && f.ValType == 0
+//@   ensures 0 <= length && length <= len(buf)
+//@   ensures f.ID == id && f.Type == fieldType && tagsOK(f)
+//@   ensures err == nil && (fieldType == 14 || fieldType == 15) ==> istype(f.Value, []UnknownField) && (forall k int :: 0 <= k && k < len(kids(f)) ==> kidOK(kids(f)[k], f.ValType) && int(kids(f)[k].ID) == int(int16(k)))
+//@   ensures err == nil && fieldType == 13 ==> istype(f.Value, []UnknownField) && len(kids(f)) % 2 == 0 && (forall k int :: 0 <= k && 2 * k + 1 < len(kids(f)) ==> kidOK(kids(f)[2*k], f.KeyType) && kidOK(kids(f)[2*k+1], f.ValType))
+//@   ensures err == nil && fieldType == 12 ==> istype(f.Value, []UnknownField) && (forall k int :: 0 <= k && k < len(kids(f)) ==> tagsOK(kids(f)[k]))
+//@   assigns *f
+//@   decreases len(buf)
+//@   loop 1 invariant 0 <= i && i <= size && 5 <= length && length <= len(buf) && f.ID == id && f.Type == fieldType && f.KeyType == 0 && f.ValType == ttype
+//@   loop 1 invariant len(set) == size && fresh(set) && region(set) != 0 && (forall k int :: i <= k && k < size ==> set[k].KeyType == 0 && set[k].ValType == 0) && (forall k int :: 0 <= k && k < i ==> kidOK(set[k], ttype) && int(set[k].ID) == int(int16(k)))
+//@   loop 1 decreases size - i
+//@   loop 2 invariant 0 <= i && i <= size && 5 <= length && length <= len(buf) && f.ID == id && f.Type == fieldType && f.KeyType == 0 && f.ValType == ttype
+//@   loop 2 invariant len(list) == size && fresh(list) && region(list) != 0 && (forall k int :: i <= k && k < size ==> list[k].KeyType == 0 && list[k].ValType == 0) && (forall k int :: 0 <= k && k < i ==> kidOK(list[k], ttype) && int(list[k].ID) == int(int16(k)))
+//@   loop 2 decreases size - i
+//@   loop 3 invariant 0 <= i && i <= size && 6 <= length && length <= len(buf) && f.ID == id && f.Type == fieldType && f.KeyType == kttype && f.ValType == vttype
+//@   loop 3 invariant len(flatMap) == 2 * size && fresh(flatMap) && region(flatMap) != 0 && (forall k int :: 2 * i <= k && k < 2 * size ==> flatMap[k].KeyType == 0 && flatMap[k].ValType == 0) && (forall k int :: 0 <= k && k < i ==> kidOK(flatMap[2*k], kttype) && kidOK(flatMap[2*k+1], vttype))
+//@   loop 3 decreases size - i
+//@   loop 4 invariant 0 <= length && length <= len(buf) && f.ID == id && f.Type == fieldType && f.KeyType == 0 && f.ValType == 0 && (isnil(fields) || fresh(fields)) && (forall k int :: 0 <= k && k < len(fields) ==> tagsOK(fields[k]))
+//@   loop 4 decreases len(buf) - length
+
+// ConvertUnknownFields: never panics on any bytes, terminates, and every top-level node it
+// returns satisfies the tag discipline (each node is decoded into a zeroed UnknownField).
+//@ func ConvertUnknownFields
+//@   arith int
+//@   props C03, C13
+//@   ensures len(buf) == 0 ==> err != nil
+//@   ensures err != nil ==> isnil(fields)
+//@   ensures err == nil ==> forall k int :: 0 <= k && k < len(fields) ==> tagsOK(fields[k])
+//@   loop 1 invariant 0 <= offset && offset <= len(buf) && err == nil && (isnil(fields) || fresh(fields)) && (forall k int :: 0 <= k && k < len(fields) ==> tagsOK(fields[k]))
+//@   loop 1 decreases len(buf) - offset
